@@ -284,8 +284,8 @@ func c20Redis(r *ev.Run, s *sutc.SUT, rnd *rand.Rand, round int) {
 			conn.C.Write(buf)
 			time.Sleep(30 * time.Millisecond)
 			for _, n := range cl.Nodes {
-				n.Silent = 0
 				n.KillConns(false)
+				n.Silent = 0
 			}
 			for i := 0; i < 20; i++ {
 				if _, err := conn.Read(10 * time.Second); err != nil {
